@@ -5,6 +5,7 @@ case = {"form": "str" | "bytes" | "lines" | "lines-nl" | "bytes-lines" | "file" 
         "via": "default" | "ctor" | "call" | "call-over",   (optional, default "default")
         "other": codec,                         (only for "call-over": the constructor's encoding)
         "history": [step, ...],                 (optional: what ONE object was used for before, see below)
+        "ambient": [kind, ...],                 (optional: OTHER objects made and edited before the last look)
         "lead": [...], "blocks": [...]}          (structure: see gen/c04_changelog.py)
 
 The text is the plain concatenation of the rendered lines, each followed by "\\n"; everything the
@@ -38,6 +39,27 @@ and everything is demanded again of the result:
     ChangelogParseError in the middle of a block, or die with UnicodeDecodeError on a bytes line);
     "scribble" then edits what the object holds.  Only the final strict parse of the well-formed
     text, done exactly as for a fresh object, is judged.
+
+"Edits" (scribble, and the fixed used object) are edit_everything(): every mutable thing reachable through
+the public interface - initial_blank_lines, each block's other_pairs mapping and changes() list - is
+changed in place (first element removed, elements added), then the documented mutators (add_change,
+add_trailing_line, set_*, new_block with its defaults) and plain attribute assignments are applied.
+
+Nor is the result a function of what else happened in the process.  With "ambient" the text is parsed a
+second time into a new object (the *witness*); then, for every kind named, another object is made
+and everything it hands out is edited in the same way:
+
+    result           the judged fresh parse of this very text
+    prior / rich     a strict parse of a fixed changelog without / with extra header fields
+    new_block        Changelog() + new_block(package=.., ..) (change list, extra fields left to the defaults)
+    bare-new_block   Changelog() + new_block()
+    ChangeBlock      ChangeBlock() and ChangeBlock(package=.., version=..)
+
+Afterwards (a) the witness - none of whose parts was touched, and which was not derived from any of
+the edited objects - must still satisfy everything the statement says of the result of its parse, and
+(b) a third parse of the text into a new object must satisfy it too.  Objects that share state with
+another one by Python's own definition (copy.copy() twins) are not generated: the statement says
+nothing about them.
 """
 import io
 import warnings
@@ -47,7 +69,7 @@ from hypothesis import strategies as st
 from ..core import Violation, Hyp, short
 from ..gen import c04_changelog as G
 
-from debian.changelog import Changelog, ChangelogParseError
+from debian.changelog import Changelog, ChangeBlock, ChangelogParseError
 
 ID = "C04"
 LEVEL = "exploration"
@@ -69,7 +91,13 @@ RULE = ("cases are changelog structures drawn from the deb-changelog(5) grammar 
         "other than the object's and than the bytes'), max_blocks=1, allow_empty_author, followed or "
         "not by edits of what the object then holds; whatever those earlier uses do - complete, warn, "
         "raise ChangelogParseError, raise UnicodeDecodeError - is accepted, the final strict parse is "
-        "judged in full); expected text = concatenation of the rendered lines. "
+        "judged in full; 'edits' change in place every mutable thing the object and its blocks hand out - "
+        "initial_blank_lines, other_pairs, changes() - and use every documented mutator) x what "
+        "happened elsewhere in the process (nothing, in a third to a half of the cases; else 1, 2 or all 6 of: the first result "
+        "itself / a parse of a fixed text without / with extra header fields / Changelog()+new_block(..) "
+        "/ +new_block() / bare ChangeBlock()s, each edited in the same way; judged: a result obtained "
+        "before those edits and never touched, and a new parse after them); "
+        "expected text = concatenation of the rendered lines. "
         "Non-trivial = >=2 blocks, or extra keys, or an urgency comment, or a change line "
         "containing '#', ':' or non-ASCII; distinct = distinct canonical JSON of the case")
 ASSUMPTIONS = [
@@ -87,6 +115,12 @@ ASSUMPTIONS = [
     "when no earlier call named an encoding",
     "earlier uses of an object are inputs of the case, not subjects: any exception they raise is recorded "
     "as a label ('history:last-step:...'), never as a violation",
+    "edits of other objects are inputs of the case, not subjects: an edit that raises is counted as a label "
+    "('ambient:some-edit-raised'), never as a violation; the witness is an independently constructed object "
+    "(own constructor call, own input object) - shallow copies of a Changelog, which share their parts with the "
+    "original by definition, are outside the domain",
+    "a defect that leaves state in the process (e.g. a container shared by all blocks) makes every later case of "
+    "the same worker fail at its first parse: the first signature recorded names the stage that exposed it",
     "Hypothesis 6.168 generators; sha1 for distinctness",
 ]
 BUDGET = {"quick": 200, "thorough": 1500}
@@ -156,13 +190,126 @@ def parse_into_used(inp, codec, via, other):
     else:
         # the earlier parse read bytes in the object's own (different) encoding
         used = Changelog(PRIOR_TEXT.encode(other), strict=True, encoding=other)
-    used[0].add_change("  * scribble")
-    used.initial_blank_lines.append("")
+    edit_everything(used)
     if via in ("default", "ctor"):
         used.parse_changelog(inp, strict=True)
     else:
         used.parse_changelog(inp, strict=True, encoding=codec)
     return used
+
+
+# ------------------------------------------------------------------------------------------
+# Editing what the library handed out.  Every mutable thing that can be reached through the public
+# interface of a Changelog / ChangeBlock is changed IN PLACE (an element removed if there is one, an
+# element added), then the documented mutators and plain attribute assignments are used.  Nothing is
+# demanded of an edit (an exception is counted and the next edit is tried): edits are inputs.
+
+EDIT_DATE = "Thu, 01 Jan 1970 00:00:00 +0000"
+
+
+def _drop_first_key(d):
+    for k in list(d)[:1]:
+        del d[k]
+
+
+def _block_edits(b):
+    return [
+        lambda: _drop_first_key(b.other_pairs),
+        lambda: b.other_pairs.__setitem__("X-Edited", "in place"),
+        lambda: b.other_pairs.update({"binary-only": "yes"}),
+        lambda: b.changes().__delitem__(slice(0, 1)),
+        lambda: b.changes().append("  * appended to the list that changes() returned"),
+        lambda: b.other_keys_normalised().__setitem__("X-Edited-Copy", "1"),
+        lambda: b.add_change("  * add_change()"),
+        lambda: b.add_trailing_line(" edited trailing line"),
+        lambda: setattr(b, "package", "edited"),
+        lambda: setattr(b, "version", "1:0~edited-1"),
+        lambda: setattr(b, "distributions", "edited dists"),
+        lambda: setattr(b, "urgency", "EDITED"),
+        lambda: setattr(b, "urgency_comment", " (edited)"),
+        lambda: setattr(b, "author", "Ed Itor <ed@it.or>"),
+        lambda: setattr(b, "date", EDIT_DATE),
+    ]
+
+
+def _run_edits(edits):
+    raised = 0
+    for e in edits:
+        try:
+            e()
+        except Exception:       # pylint: disable=broad-except
+            raised += 1
+    return raised
+
+
+def edit_block(b):
+    """Edit everything a ChangeBlock hands out; returns the number of edits that raised."""
+    return _run_edits(_block_edits(b))
+
+
+def edit_everything(cl):
+    """Edit everything a Changelog and its blocks hand out, use its mutators, put a block of defaults
+    on top and edit that too; returns the number of edits that raised."""
+    raised = _run_edits([
+        lambda: cl.initial_blank_lines.__delitem__(slice(0, 1)),
+        lambda: cl.initial_blank_lines.append("   "),
+        lambda: cl.versions.append(None),
+    ])
+    try:
+        blocks = list(cl)
+    except Exception:           # pylint: disable=broad-except
+        blocks, raised = [], raised + 1
+    for b in blocks:
+        raised += edit_block(b)
+    if blocks:
+        raised += _run_edits([
+            lambda: cl.add_change("  * Changelog.add_change()"),
+            lambda: cl.set_version("2:0~set-1"),
+            lambda: cl.set_package("set"),
+            lambda: cl.set_distributions("set"),
+            lambda: cl.set_urgency("set"),
+            lambda: cl.set_author("Set Ter <set@t.er>"),
+            lambda: cl.set_date(EDIT_DATE),
+        ])
+    # a block whose change list and extra fields are left to the library's defaults
+    raised += _run_edits([lambda: cl.new_block(package="new", version="3", distributions="new", urgency="low",
+                                               author="New Block <n@b.c>", date=EDIT_DATE)])
+    try:
+        top = cl[0]
+    except Exception:           # pylint: disable=broad-except
+        return raised + 1
+    return raised + edit_block(top)
+
+
+# Other objects of the same process ("ambient"): each is made as named, then edited as above.
+RICH_TEXT = ("rich (2:3.0~rc1-1) experimental unstable; urgency=HIGH (x), binary-only=yes, X-Note=a b\n\n"
+             "  * Na\u00efve r\u00e9sum\u00e9 handling: fixed (#12).\n\n"
+             " -- Zo\u00eb M\u00fcller <zoe@example.org>  Tue,  2 Feb 2021 1:02:03 +0100\n\n"
+             "rich (0.9) stable; urgency=low\n  * tight\n -- X <x@y.z>  Wed, 03 Mar 1999 23:59:59 -0000\n")
+AMBIENT_KINDS = ["result", "prior", "rich", "new_block", "bare-new_block", "ChangeBlock"]
+
+
+def valid_ambient(ambient):
+    return (isinstance(ambient, list) and len(ambient) <= 8
+            and all(isinstance(k, str) and k in AMBIENT_KINDS for k in ambient))
+
+
+def edit_ambient(kind, result):
+    """Make the object ``kind`` names (``result`` is the judged fresh parse itself) and edit it."""
+    if kind == "result":
+        return edit_everything(result)
+    if kind == "prior":
+        return edit_everything(Changelog(PRIOR_TEXT, strict=True))
+    if kind == "rich":
+        return edit_everything(Changelog(RICH_TEXT, strict=True))
+    if kind == "new_block":
+        return edit_everything(Changelog())         # edit_everything() itself calls new_block(...)
+    if kind == "bare-new_block":
+        cl = Changelog()
+        cl.new_block()
+        return edit_everything(cl)
+    return edit_block(ChangeBlock()) + edit_block(ChangeBlock(package="p", version="1", changes=None,
+                                                             other_pairs=None))
 
 
 def valid_history(history):
@@ -243,11 +390,8 @@ def object_with_history(history, codec, via, other):
             out = _outcome(lambda: box[0].parse_changelog(inp, **args))
             outcomes.append(out)
         if st_.get("scribble", False):
-            used = box[0]
-            out = _outcome(lambda: (used[0].add_change("  * scribble") if len(used) else None,
-                                    used.initial_blank_lines.append("")))
-            if out != "returned":
-                outcomes[-1] += "+scribble-" + out
+            if edit_everything(box[0]):
+                outcomes[-1] += "+scribble-raised"
     if not box:
         box.append(Changelog(**kw))
     return box[0], outcomes
@@ -366,6 +510,9 @@ def check(case):
     history = case.get("history")
     if history is not None and not valid_history(history):
         return (False, ("invalid-case-skipped",))
+    ambient = case.get("ambient")
+    if ambient is not None and not valid_ambient(ambient):
+        return (False, ("invalid-case-skipped",))
     lines = G.render_lines(case)
     text = "".join(l + "\n" for l in lines)
     if not G.encodable(text, codec):
@@ -425,12 +572,53 @@ def check(case):
                       with_bytes=all(s_.get("enc") is None for s_ in history))
         hist_labels = history_labels(case, history, outcomes, codec, via, other, text)
 
+    # ... and so must a new object, whatever was done before - in the same process - to what other
+    # objects handed out; and the result of a parse made earlier, none of whose parts was touched,
+    # must still be what the statement says it is.
+    amb_labels = []
+    if ambient:
+        with warnings.catch_warnings():
+            warnings.simplefilter("ignore")
+            try:
+                witness = parse_fresh(make_input(case["form"], lines, codec), codec, via, other)
+            except ChangelogParseError as e:
+                raise Violation("second-parse:strict-rejects:" + _error_class(str(e)), "%s for %s" % (e, short(text)))
+        raised = 0
+        for kind in ambient:
+            box = []
+            out = _outcome(lambda: box.append(edit_ambient(kind, cl)))
+            raised += box[0] if box else 1
+            amb_labels.append("ambient:" + kind)
+            if out != "returned":
+                amb_labels.append("ambient:making-or-editing-an-object-" + out.split(":")[0])
+        if raised:
+            amb_labels.append("ambient:some-edit-raised")
+        ctx = "after in-place edits of what other objects [%s] handed out, " % ", ".join(ambient)
+        _check_result(witness, case, text, encoded, codec, via, "untouched-result-after-edits-elsewhere:",
+                      ctx + "a Changelog parsed before them and never touched: ")
+        with warnings.catch_warnings(record=True) as caught:
+            warnings.simplefilter("always")
+            try:
+                again = parse_fresh(make_input(case["form"], lines, codec), codec, via, other)
+            except ChangelogParseError as e:
+                raise Violation("fresh-parse-after-edits-elsewhere:strict-rejects:" + _error_class(str(e)),
+                                "%s%s for %s" % (ctx, e, short(text)))
+        if caught:
+            raise Violation("fresh-parse-after-edits-elsewhere:warning",
+                            "%s%s for %s" % (ctx, caught[0].message, short(text)))
+        _check_result(again, case, text, encoded, codec, via, "fresh-parse-after-edits-elsewhere:",
+                      ctx + "a new Changelog: ")
+        if any(not b["pairs"] for b in case["blocks"]):
+            amb_labels.append("ambient:text-has-a-block-without-extra-keys")
+
     labels = G.struct_labels(case)
     labels.add("form:" + case["form"])
     labels.add("codec:" + codec)
     labels.add("encoding-via:" + via)
     labels.add("history-steps:%d" % len(history or ()))
     labels.update(hist_labels)
+    labels.add("ambient-objects:%d" % len(ambient or ()))
+    labels.update(amb_labels)
     if case["form"] in BYTES_FORMS and not text.isascii():
         labels.add("non-ascii-bytes-input")
         if codec != "utf-8":
@@ -522,12 +710,21 @@ def gen_history(draw):
 _histories = gen_history()
 
 
+# Which other objects are made and edited before the last look: every single kind, every pair (in one
+# order), all of them - or none (a third of the pool).
+AMBIENTS = ([[k] for k in AMBIENT_KINDS]
+            + [[a, b] for i, a in enumerate(AMBIENT_KINDS) for b in AMBIENT_KINDS[i + 1:]]
+            + [list(AMBIENT_KINDS)])
+_ambients = st.sampled_from([None] * (len(AMBIENTS) // 2) + AMBIENTS)
+
+
 @st.composite
 def gen_case(draw, max_blocks=4):
     s = draw(G.structs(max_blocks=max_blocks))
     form = draw(_forms)
     via = draw(_vias)
     history = draw(_histories)
+    ambient = draw(_ambients)
     s["form"] = form
     if via != "default":
         codec = draw(_linewise_codecs if form in LINEWISE_BYTES_FORMS else _codecs)
@@ -537,6 +734,8 @@ def gen_case(draw, max_blocks=4):
             s["other"] = draw(_others[codec])
     if history:
         s["history"] = history
+    if ambient:
+        s["ambient"] = ambient
     return s
 
 
